@@ -750,7 +750,9 @@ func (h *RealtimeHandler) HandleEntityComponentUpdate(ctx context.Context, msg h
 		Data:                  req.Data,
 	}
 
-	session.GetEntityComponents().Update(&entityComponent)
+	if err := session.GetEntityComponents().Update(&entityComponent); err != nil {
+		return nil
+	}
 
 	h.FeatureFlags.IfNotSet(featureflag.FlagDisableEntityComponentUpdateBroadcast, func() {
 		session.GetEntityComponents().Notify(entityComponent.EntityComponentTypeId, func(participantIDs []uint32) {
